@@ -45,6 +45,12 @@ def _node_safe(prog, kids, rho):
         den = kids[1]
         rad, ok = _majorant(den, rho)
         return ok and rad < float(abs(den[0]))
+    if tag == 'pw':
+        # u**v = exp(v log u): the base must stay in the right half plane, away from 0
+        base = kids[0]
+        rad, ok = _majorant(base, rho)
+        rad2, ok2 = _majorant(kids[1], rho)
+        return ok and ok2 and float(mp.re(base[0])) - rad > 0
     child = kids[0]
     c = child[0]
     rad, ok = _majorant(child, rho)
@@ -99,6 +105,10 @@ def _partials(prog, kids):
         if op == '*':
             return [float(abs(b0)), float(abs(a0))]
         return [float(1 / abs(b0)), float(abs(a0) / abs(b0) ** 2)]
+    if tag == 'pw':
+        u0, v0 = kids[0][0], kids[1][0]
+        val = mp.power(u0, v0)
+        return [float(abs(val * v0 / u0)), float(abs(val * mp.log(u0)))]
     c = kids[0][0]
     if tag == 'p':
         j = jets.powr(jets.var(c, 2), prog[2])
